@@ -17,6 +17,19 @@ from worlds.c05 import expected_read, parse_frames
 PREFIXES = ("dump", "voro_a", "voro_b", "run.v2", "sub/vor")
 
 
+_VCACHE = {}
+
+
+def vconfig(recipe):
+    """One VConfig (and one set of reference tessellations) per recipe and run."""
+    key = repr(sorted(recipe.items()))
+    if key not in _VCACHE:
+        if len(_VCACHE) > 8:
+            _VCACHE.clear()
+        _VCACHE[key] = VConfig(recipe)
+    return _VCACHE[key]
+
+
 class VConfig:
     def __init__(self, recipe):
         self.recipe = dict(recipe)
@@ -48,16 +61,33 @@ class VConfig:
         # per-frame boxes: constant, or breathing / drifting as in a constant-pressure run
         self.Ls, self.los = [], []
         vary = recipe.get("boxes", "const") == "vary"
+        creep = recipe.get("boxes", "const") == "creep"
         for _t in range(T):
-            if vary and _t > 0:
+            if creep and _t > 0:
+                # a slowly compressed cell: consecutive boxes differ in the sixth digit only
+                Lt = self.Ls[-1] * (1.0 + rng.uniform(-9e-6, 9e-6, size=ndim))
+                lot = -Lt / 2 if ok == "centred" else np.array(self.lo, dtype=float)
+            elif vary and _t > 0:
                 Lt = np.round(self.L * (1.0 + rng.uniform(-0.12, 0.12, size=ndim)), 3)
                 lot = -Lt / 2 if ok == "centred" else np.round(self.lo + rng.uniform(-0.5, 0.5, size=ndim), 3)
             else:
                 Lt, lot = self.L.copy(), np.array(self.lo, dtype=float)
             self.Ls.append(Lt)
             self.los.append(lot)
+        if layout == "hex":
+            # (2D, large systems) a jittered triangular lattice commensurate with the box: no
+            # near-degenerate vertices, so every edge stays far above the files' resolution
+            nx = max(2, int(np.ceil(np.sqrt(N * (self.L[0] / self.L[1]) * 0.8660254))))
+            ny = max(2, int(np.ceil(N / nx)))
+            ny += ny % 2
+            N = self.N = nx * ny
         for _t in range(T):
-            if layout == "lattice":
+            if layout == "hex":
+                jj, ii = np.meshgrid(np.arange(ny), np.arange(nx), indexing="ij")
+                s = np.column_stack((((ii + 0.5 * (jj % 2)) / nx).ravel(), (jj / ny).ravel()))
+                s = s + rng.normal(0, 0.04, size=s.shape) / np.array([nx, ny])
+                s -= np.floor(s)
+            elif layout == "lattice":
                 m = int(np.ceil(N ** (1.0 / ndim)))
                 grid = np.stack(np.meshgrid(*[np.arange(m)] * ndim, indexing="ij"), -1).reshape(-1, ndim)
                 pick = rng.permutation(len(grid))[:N]
@@ -182,9 +212,13 @@ class World(WorldBase):
             "maxN": rng.choice([6, 12, 24, 48, 48, 130]),
             "maxT": rng.randint(1, 3),
             "w_volmat": rng.choice([0, 1, 2]),
+            "huge": rng.random() < float(os.environ.get("VERIF_C20_HUGE", "0.003")),
             "faults": [],
             "hold_max": 0,
         }
+        if sw["huge"]:
+            sw["nops"] = min(sw["nops"], 6)
+            sw["w_volmat"] = 0
         if batch == "fault":
             sw["faults"] = rng.sample(["interrupt", "oserror_write", "short_write", "short_read", "oserror_read"], rng.randint(1, 4))
             sw["hold_max"] = rng.choice([0, 1, 3])
@@ -268,12 +302,17 @@ class World(WorldBase):
         for _try in range(200):
             ndim = rng.choice([2, 3])
             N = rng.randint(4, 14 if small else sw["maxN"])
+            huge = not small and sw.get("huge") and not any(c.N > 5000 for c in self.configs.values())
+            if huge:
+                ndim, N = 2, rng.randint(10001, 12500)      # a size beyond any block / buffer / digit threshold
             rec = {"ndim": ndim, "N": N, "T": rng.randint(1, sw["maxT"]),
                    "origin": rng.choice(["any", "any", "centred", "zero", "int-sum-zero", "far"]),
                    "shape": rng.choice(["cube", "cube", "cube", "slab"]),
-                   "layout": rng.choice(["random", "lattice"]), "boxes": rng.choice(["const", "const", "vary"]),
+                   "layout": rng.choice(["random", "lattice"]), "boxes": rng.choice(["const", "const", "vary", "creep"]),
                    "subseed": rng.randrange(1 << 40)}
-            if VConfig(rec).general_position():
+            if huge:
+                rec.update(layout="hex", shape="cube", T=1)
+            if vconfig(rec).general_position():
                 return {"op": "mk_config", "name": f"c{self.next_c}", "recipe": rec}
             self.ctx.probe("regen_general_position")
         raise RuntimeError("no configuration in general position")
@@ -305,7 +344,7 @@ class World(WorldBase):
         return getattr(self, "do_" + op["op"])(op)
 
     def do_mk_config(self, op):
-        c = VConfig(op["recipe"])
+        c = vconfig(op["recipe"])
         if not c.general_position():
             raise Refuse("not in general position")
         self.configs[op["name"]] = c
